@@ -61,6 +61,7 @@ def crash_point(ctx, what):
 
 def fault(ctx, what, exc='OSError'):
   if ctx.branch(ctx.fresh('fault_' + what, 'bool')):
+    ctx.tags['faults'] = ctx.tags.get('faults', 0) + 1
     raise RaiseSig(ExcV(exc))
 
 
@@ -104,9 +105,12 @@ class BytesV(Val):
 def c_open(ctx, path, mode='r'):
   if not isinstance(path, PathV):
     raise Unsupported('open path')
-  if 'w' in mode:
+  if 'w' in mode or 'x' in mode:
     fault(ctx, 'open')
-    fstate(ctx, path.label)
+    e, _ = fstate(ctx, path.label)
+    if 'x' in mode and ctx.branch(e):
+      # exclusive create: a file left behind by an earlier crash makes this raise (not an injected fault)
+      raise RaiseSig(ExcV('FileExistsError'))
     ctx.ghost['exists:' + path.label] = z3.BoolVal(True)
     ctx.ghost['written:' + path.label] = z3.IntVal(0)  # 'wb' truncates
     ctx.ghost['open:' + path.label] = z3.BoolVal(True)   # buffered: the tail is on disk only after close()
@@ -255,9 +259,23 @@ def c_copy(ctx, src, dst, *a, **k):
   g['written:' + dst.label] = n
   crash_point(ctx, f'copy({src.label} -> {dst.label}) (any number of bytes copied so far)')
   if ctx.branch(ctx.fresh('fault_copy_mid', 'bool')):
+    ctx.tags['faults'] = ctx.tags.get('faults', 0) + 1
     raise RaiseSig(ExcV('OSError'))
   g['written:' + dst.label] = ws
   crash_point(ctx, f'copy({src.label} -> {dst.label}) finished')
+  return None
+
+
+def c_remove(ctx, path):
+  if not isinstance(path, PathV):
+    raise Unsupported('remove path')
+  fault(ctx, 'remove')
+  e, _ = fstate(ctx, path.label)
+  if ctx.branch(z3.Not(e)):
+    raise RaiseSig(ExcV('FileNotFoundError'))
+  ctx.ghost['exists:' + path.label] = z3.BoolVal(False)
+  ctx.ghost['written:' + path.label] = z3.IntVal(0)
+  crash_point(ctx, f'remove({path.label})')
   return None
 
 
@@ -283,6 +301,7 @@ def c_copyfileobj(ctx, fi, fo):
   crash_point(ctx, 'copyfileobj (any number of bytes copied so far)')
   # T-IO: copyfileobj copies everything or raises
   if ctx.branch(ctx.fresh('fault_copy', 'bool')):
+    ctx.tags['faults'] = ctx.tags.get('faults', 0) + 1
     raise RaiseSig(ExcV('LZMAError'))
   ctx.assume(n == DLEN)
   return None
@@ -307,6 +326,7 @@ def globals_():
   return {
       'os': Module('os', {
           'makedirs': noop, 'rename': Handler(c_rename, 'os.rename'),
+          'remove': Handler(c_remove, 'os.remove'), 'unlink': Handler(c_remove, 'os.unlink'),
           'replace': Handler(c_rename, 'os.replace'),
           'path': Module('os.path', {
               'join': Handler(lambda ctx, *a: PathV('FILE', LEN), 'os.path.join'),
@@ -368,6 +388,9 @@ def v_download(p):
     ctx.oblige('dl.atomic.exit', z3.Implies(g['exists:FILE'], g['written:FILE'] == LEN),
                kind='crash-invariant',
                detail='on return and on every exceptional exit the final cache path is absent or complete')
+    ctx.oblige('dl.repair', kind == 'return' or ctx.tags.get('faults', 0) > 0,
+               detail='from every state an earlier crash can leave (a stale .partial included) a call that meets '
+                      'no new I/O error returns: the cache is repaired')
     if kind == 'return':
       ctx.oblige('dl.post', z3.And(g['exists:FILE'], g['written:FILE'] == LEN),
                  detail='a successful call returns a complete cached file (repairing a stale .partial)')
@@ -390,12 +413,16 @@ def v_lzma(p):
     e, w = fstate(ctx, 'FILE')
     ctx.tags['totals']['FILE'] = DLEN
     ctx.assume(z3.Implies(e, w == DLEN))
+    fstate(ctx, 'FILE.partial')   # a stale .partial from an earlier interrupted call may hold anything
     e0 = e
     kind, r = eng.run_function(ctx, ex.funcv(), [PathV('FILE.lzma', LEN)])
     g = ctx.ghost
     ctx.oblige('xz.atomic.exit', z3.Implies(g['exists:FILE'], g['written:FILE'] == DLEN),
                kind='crash-invariant',
                detail='on return and on every exceptional exit the decompressed path is absent or complete')
+    ctx.oblige('xz.repair', kind == 'return' or ctx.tags.get('faults', 0) > 0,
+               detail='from every state an earlier crash can leave (a stale .partial included) a call that meets '
+                      'no new I/O error returns: the cache is repaired')
     if kind == 'return':
       ctx.oblige('xz.post', z3.And(g['exists:FILE'], g['written:FILE'] == DLEN),
                  detail='a successful call returns a complete decompressed file')
